@@ -50,7 +50,7 @@ func (f *fuzzCtx) num() string {
 }
 
 func (f *fuzzCtx) str() string {
-	return f.pick("", "a", "k", "d/", "d/e", "/", "//", "..", "../x", "%", "%zz", "\x00", "é", "k with space", strings.Repeat("x", 1025), "zzzz", "k\n", "a&b=c", "?", "#frag")
+	return f.pick("", "a", "k", "d/", "d/e", "/", "//", "..", "../x", "%", "%zz", "\x00", "é", "k with space", strings.Repeat("x", 1025), strings.Repeat("\xe4\xb8\x96", 70), strings.Repeat("y", 199)+"\xc3\xa9", "zzzz", "k\n", "a&b=c", "?", "#frag")
 }
 
 func (f *fuzzCtx) request() (Req, string) {
@@ -439,6 +439,14 @@ func runC09(tier string, seed uint64) {
 				// a declared length the server must not believe before the bytes arrive
 				corpus = append(corpus, Req{Method: "PUT", Path: "/" + singleBucketName + "/huge", Body: []byte("x"), Header: [][2]string{{"Content-Length", cl}}},
 					Req{Method: "PUT", Path: "/" + singleBucketName + "/huge", Body: []byte("x"), Header: [][2]string{{"X-Amz-Content-Sha256", "STREAMING-AWS4-HMAC-SHA256-PAYLOAD"}, {"X-Amz-Decoded-Content-Length", cl}}})
+			}
+			// keys around the lengths at which backends shorten names internally (200 bytes for the metadata
+			// files of the fs backends), in characters of one to four bytes: written, read, listed, deleted
+			for _, lk := range []string{strings.Repeat("\xe4\xb8\x96", 70), strings.Repeat("k", 199) + "\xc3\xa9\xc3\xa9", "d/" + strings.Repeat("\xc3\xa9", 101), strings.Repeat("\xf0\x9f\x98\x80", 51), strings.Repeat("z", 198) + "\xe2\x82\xac"} {
+				p := "/" + singleBucketName + "/" + pathEscape(lk)
+				corpus = append(corpus, Req{Method: "PUT", Path: p, Body: []byte("long")}, Req{Method: "GET", Path: p}, Req{Method: "HEAD", Path: p},
+					Req{Method: "GET", Path: "/" + singleBucketName}, Req{Method: "GET", Path: "/" + singleBucketName + "?list-type=2&delimiter=%2F"},
+					Req{Method: "DELETE", Path: p}, Req{Method: "GET", Path: "/" + singleBucketName})
 			}
 			corpus = append(corpus,
 				Req{Method: "PUT", Path: "/" + singleBucketName + "/neg", Body: []byte("x"), Header: [][2]string{{"X-Amz-Content-Sha256", "STREAMING-AWS4-HMAC-SHA256-PAYLOAD"}, {"X-Amz-Decoded-Content-Length", "-1"}}},
